@@ -7,6 +7,7 @@ require (
 	github.com/sirupsen/logrus v1.4.2
 	github.com/taskctl/taskctl v0.0.0
 	gopkg.in/yaml.v2 v2.3.0
+	github.com/bmatcuk/doublestar v1.1.5
 )
 
 require (
